@@ -210,7 +210,17 @@ impl Scenario for C08 {
                 p.data = m;
                 p.faults.push("content-foreign-magic-prefix".into());
             }
-            10 => {
+            22 | 23 => {
+                // tiny files (shorter than a version line) that still say something, and random short texts
+                let tiny = ["[General]\nMode:1", "[General]\nMode: 3", "[Metadata]\nTitle:x", "[Difficulty]\nCircleSize:7", "[Events]\n2,1,9", "[HitObjects]\n1,2,3,1,0", "Mode:1", "[General]\nMode:2\n", "\n[General]\nMode:1", "[Colours]\nCombo1:1,2,3", "osu file format v9", "osu file format v", "[General]"];
+                let mut t = rng.pick(&tiny).to_string();
+                if rng.chance(1, 3) {
+                    t.truncate(rng.below(t.len() + 1));
+                }
+                p.data = encode_text(&t, enc);
+                p.faults.push("content-tiny-file".into());
+            }
+            10 | 20 | 21 => {
                 // a short structural prefix (BOM pieces, NUL, CR/LF) in front of the file
                 let n = 1 + rng.below(4);
                 let mut m: Vec<u8> = (0..n).map(|_| *rng.pick(&crate::corpus::SHORT_ALPHABET)).collect();
